@@ -23,8 +23,9 @@ DECL = {
     # interface + name spell the same string as declaration 3 ('org.v.I1' + 'name'): two different properties
     7: ('org.v.I1n', 'ame', 's', 'readwrite', 'false', 'ame', False),
 }
-CONCRETE = {'i': [9, 10, 11, 12], 'u': [19, 20, 21, 22], 's': ['n0', 'n1', 'n2', 'n3'], 'y': [0, 1, 2, 3],
-            'd': [1.5, 5, 2.5, 7], 'b': [False, True, False, True]}
+# zero, the empty string and False are values like any other
+CONCRETE = {'i': [9, 10, 0, 12], 'u': [0, 20, 21, 22], 's': ['n0', '', 'n2', 'n3'], 'y': [0, 1, 2, 3],
+            'd': [0, 5, 2.5, 7], 'b': [False, True, False, True]}
 WRAP = {'i': marshal.Int32, 'u': marshal.UInt32, 's': str, 'y': marshal.Byte, 'd': float, 'b': marshal.Boolean}
 
 
